@@ -1,10 +1,29 @@
-(* Properties_C17.v — obligations of property C17.  Contains only theorem statements closed by
-   `exact <lemma>` and Print Assumptions. *)
-Require Import ObsRun.
+(* Properties_C17.v — obligations of property C17 (settings are independent, clamped, and only
+   changed by their setters).  Only statements closed by `exact <lemma>` and Print Assumptions. *)
+Require Import ObsRun Lemmas_Settings.
 Local Open Scope Z_scope.
 
-(* non-vacuity: the observer of C17 is evaluated (and holds) along a run of the model that
-   touches every group kind *)
+(* For EVERY history of API calls (any length, any interleaving of setters, parse, clear, init)
+   and for any character / ECC tables: the ten settings getters return settings_of h — the value
+   last written to that very key since initialisation, thresholds clamped by Z.min e 2, defaults
+   (off, 0, off).  Since settings_of ignores OParse / OParseString / OClear and, for each key,
+   the writes to all other keys, this is "reads back what was last written to that key",
+   "writing one key never changes another key", "survive clear", "never modified by parsing". *)
+Theorem C17_settings_read_back : forall conv lut h s,
+  reach conv lut h s -> cfg_of s = settings_of h.
+Proof. exact settings_readback. Qed.
+Print Assumptions C17_settings_read_back.
+
+(* The full observer (read-back + a setter changes no decoded datum and fires no callback) holds
+   at every step of every run of the model; the same observer is evaluated on the library. *)
+Theorem C17_observer : forall conv lut h s o, reach conv lut h s -> wf_op o ->
+  obs_C17 (o :: h) (snap_of s) (snap_of (fst (step conv lut s o))) (snd (step conv lut s o)) (ret_of o) = true.
+Proof. exact C17_observer_holds. Qed.
+Print Assumptions C17_observer.
+
+(* non-vacuity: a concrete run with every kind of call; the observer is evaluated, and holds *)
 Example C17_scenario : check_run_u (observer_u 17) scenario = true.
 Proof. vm_compute. reflexivity. Qed.
-Print Assumptions C17_scenario.
+Example C17_clamp : forall conv lut,
+  cfg_of (fst (step conv lut init_state (OSetCorr RT DATA 200))) = [0; 0; 0; 0; 0; 0; 0; 2; 0; 0].
+Proof. intros. reflexivity. Qed.
